@@ -119,6 +119,39 @@ def inline_call(anchor, call_bb, helper):
     return aj
 
 
+_RULE_NAMES = None
+
+
+def _names_used_by_rules():
+    """Every "xs::…" path that a rule module mentions literally: rules anchor on those, so they are never inlined away."""
+    global _RULE_NAMES
+    if _RULE_NAMES is None:
+        import glob, os, re
+        names = set()
+        root = os.path.join(os.path.dirname(os.path.dirname(os.path.abspath(__file__))), "rules")
+        for f in glob.glob(os.path.join(root, "*.py")):
+            with open(f) as fh:
+                for m in re.finditer(r'"(<?xs(?:bin)?::[A-Za-z0-9_:<> ]+)"', fh.read()):
+                    names.add(m.group(1).rstrip(":"))
+        _RULE_NAMES = names
+    return _RULE_NAMES
+
+
+def _module(def_path):
+    """xs::store::Store::append -> xs::store ; xs::api::handle -> xs::api ; <xs::nu::commands::x::C as T>::run -> xs::nu::commands::x"""
+    d = def_path.lstrip("<")
+    parts = d.split(" as ")[0].split("::")
+    mod = []
+    for p in parts:
+        if p and (p[0].isupper() or p.startswith("{")):
+            break
+        mod.append(p)
+    # a free function: drop its own name
+    if len(mod) == len(parts):
+        mod = mod[:-1]
+    return "::".join(mod)
+
+
 def single_caller_helpers(facts, anchors, pinned):
     """[(anchor_body, call_bb, helper_body)] candidates: crate-local sync fns with exactly one live call site, located in an anchor."""
     sites = {}
@@ -129,13 +162,18 @@ def single_caller_helpers(facts, anchors, pinned):
                 sites.setdefault(c.fn, []).append((b, c))
     out = []
     for fn, ss in sites.items():
-        if len(ss) != 1 or fn in pinned or fn in anchors:
+        if len(ss) != 1 or fn in pinned:
             continue
         (b, c) = ss[0]
         if b.def_ not in anchors:
             continue
         h = facts.body(fn)
         if h is None or h.is_coroutine or h.kind not in ("Fn", "AssocFn") or h.crate is not b.crate:
+            continue
+        # only private helpers living in the anchor's own module ("extract function" refactors), never API items
+        if not (h.vis or "").startswith("Restricted") or _module(h.def_) != _module(facts.enclosing_fn(b)):
+            continue
+        if fn in _names_used_by_rules():
             continue
         if any(cc.fn == fn for cc in h.calls()):
             continue   # recursive
